@@ -15,3 +15,15 @@ Proof.
   intros H. apply Ok_inj_k in H. apply pair_equal_spec in H. destruct H as [<- <-]. cbn [rs re]. repeat split; lia.
 Qed.
 
+
+(* CdsSeq.get_inner_cds_range: the in-frame part of a coding region, None when it holds no complete codon *)
+Theorem k_cds_inner_range_eq c : k_cds_inner_range c = inner_cds_range c.
+Proof.
+  unfold k_cds_inner_range, inner_cds_range, k_cds_prefix_length, k_cds_suffix_length. cbn [bind].
+  change (ka_codon_offset_complement (zlen (c_prefix c))) with (compl_offset (zlen (c_prefix c))).
+  destruct (compl_offset (zlen (c_prefix c))) as [a|e]; cbn [bind]; [|reflexivity].
+  change (ka_codon_offset_complement (zlen (c_suffix c))) with (compl_offset (zlen (c_suffix c))).
+  destruct (compl_offset (zlen (c_suffix c))) as [b|e]; cbn [bind]; [|reflexivity].
+  destruct (c_end c - b <? c_start c + a); [reflexivity|].
+  destruct (mk_range (c_start c + a) (c_end c - b)) as [r|e]; cbn [bind]; reflexivity.
+Qed.
